@@ -31,6 +31,7 @@ from . import core
 from .core import natlit, listlit, boollit
 from . import jugrun
 from . import fakeredis
+from . import storefaults
 import jug
 import jug.jug
 import jug.task
@@ -475,7 +476,7 @@ def scan_file_store(jd):
                 files.append('toplevel:' + d)
     pack = None
     if os.path.exists(os.path.join(jd, 'packs', 'jugpack')):
-        pack = sorted(hx(k) for k in file_store(jd).packed.keys())
+        pack = sorted(hx(k) for k in storefaults.pack_on_disk(jd).keys())
     return sorted(files), pack, temps
 
 
